@@ -7,8 +7,7 @@ set_option linter.unusedVariables false
 * `attr_ice`, `attr_blink`, `attr_ext_*`: decoding the attribute byte a cell was written with gives the colours the cell
   is DISPLAYED with (finite tables, `decide`, lifted to all cells by the bounds of `attrCell`).
 * `from63_asVec63`, `fromEga_toEga`: the two palette codecs are inverse on 6-bit-expandable colours.
-* `extract_written`: `SauceData::extract` on a file that ends in the record `write_sauce_info` appended finds it, answers
-  the header length 129 and the size / ice flag the writer stored; `extract_none`: no signature, no record.
+(the SAUCE record: `Lemmas/BinFormatsSauce.lean`, on top of the C11 theorems)
 -/
 namespace IcyVerif.BinFormats
 open IcyVerif.XbCompress IcyVerif.Gen
@@ -212,89 +211,7 @@ theorem toEgaData_length (pal : List Rgb) : (toEgaData pal).length = 192 := by
     | cons c cs ih => simp [List.flatMap_cons] at ih ⊢; omega
   rw [this, foldl_set_length, egaBase_length]
 
-/-! ## SAUCE -/
-
-/-- ID, version, title, author, group -/
-def saucePre82 : List Nat :=
-  BinFmt.sauceId ++ [48, 48] ++ List.replicate BinFmt.sauceTitleLen 32 ++ List.replicate BinFmt.sauceAuthorLen 32 ++
-    List.replicate BinFmt.sauceGroupLen 32
-
-theorem saucePre82_length : saucePre82.length = 82 := by decide
-
-theorem sauceHead_eq (date : List Nat) (n : Nat) : sauceHead date n = saucePre82 ++ date ++ u32le n := rfl
-
-theorem infoStr_length (name : List Nat) : (infoStr name).length = 22 := by
-  unfold infoStr
-  have : BinFmt.sauceInfoLen = 22 := rfl
-  simp only [this, List.length_append, List.length_replicate, List.length_take]
-  omega
-
-/-- the record `write_sauce_info` appends is found by `extract`: header length 129 (EOF char + record), size and ice flag
-    as `sauceDims` reads them -/
-theorem extract_written (body date info : List Nat) (dt ft t1l t1h t2l t2h x1 x2 x3 x4 fl : Nat)
-    (hd : date.length = 8) (hok : dateOk date = true) (hi : info.length = 22) :
-    extractSauce (body ++ [0x1A] ++ sauceHead date (body.length + 1) ++ ([dt, ft] ++ [t1l, t1h] ++ [t2l, t2h] ++ [x1, x2, x3, x4] ++ [0, fl] ++ info)) =
-      .some ⟨(sauceDims dt ft (t1l + t1h * 256) (t2l + t2h * 256) fl).1, (sauceDims dt ft (t1l + t1h * 256) (t2l + t2h * 256) fl).2.1,
-             (sauceDims dt ft (t1l + t1h * 256) (t2l + t2h * 256) fl).2.2, 129⟩ ∧
-    (body ++ [0x1A] ++ sauceHead date (body.length + 1) ++ ([dt, ft] ++ [t1l, t1h] ++ [t2l, t2h] ++ [x1, x2, x3, x4] ++ [0, fl] ++ info)).length =
-      body.length + 129 := by
-  have h128 : BinFmt.sauceLen = 128 := rfl
-  have hhead : (sauceHead date (body.length + 1)).length = 94 := by
-    rw [sauceHead_eq]; simp [saucePre82_length, hd, u32le]
-  generalize hrec' : sauceHead date (body.length + 1) ++ ([dt, ft] ++ [t1l, t1h] ++ [t2l, t2h] ++ [x1, x2, x3, x4] ++ [0, fl] ++ info) = rec
-  have hrec := hrec'.symm
-  have hreclen : rec.length = 128 := by simp [hrec, hhead, hi]
-  have hlen : (body ++ [0x1A] ++ rec).length = body.length + 129 := by simp [hreclen]
-  have hall : body ++ [0x1A] ++ sauceHead date (body.length + 1) ++ ([dt, ft] ++ [t1l, t1h] ++ [t2l, t2h] ++ [x1, x2, x3, x4] ++ [0, fl] ++ info) =
-      body ++ [0x1A] ++ rec := by rw [List.append_assoc (body ++ [0x1A]), hrec']
-  rw [hall]
-  refine ⟨?_, hlen⟩
-  unfold extractSauce
-  have hdrop : (body ++ [0x1A] ++ rec).drop ((body ++ [0x1A] ++ rec).length - BinFmt.sauceLen) = rec := by
-    rw [hlen, h128]
-    exact List.drop_left' (by simp)
-  have hnotshort : ¬ ((body ++ [0x1A] ++ rec).length < BinFmt.sauceLen) := by rw [hlen, h128]; omega
-  simp only [hnotshort, if_false, hdrop]
-  -- the fields of the record
-  have hrec2 : rec = saucePre82 ++ (date ++ (u32le (body.length + 1) ++ (dt :: ft :: t1l :: t1h :: t2l :: t2h :: x1 :: x2 :: x3 :: x4 :: 0 :: fl :: info))) := by
-    simp [hrec, sauceHead_eq, List.append_assoc]
-  have hid : rec.take 5 = BinFmt.sauceId := by
-    rw [hrec2]; unfold saucePre82
-    simp only [List.append_assoc]
-    exact List.take_left' (by decide)
-  have hver : (rec.drop 5).take 2 = [48, 48] := by
-    rw [hrec2]; unfold saucePre82
-    simp only [List.append_assoc]
-    rw [List.drop_left' (by decide)]
-    rfl
-  have hdate : (rec.drop 82).take 8 = date := by
-    rw [hrec2, List.drop_left' saucePre82_length]
-    exact List.take_left' hd
-  have htail : rec.drop 94 = dt :: ft :: t1l :: t1h :: t2l :: t2h :: x1 :: x2 :: x3 :: x4 :: 0 :: fl :: info := by
-    have : rec = (saucePre82 ++ date ++ u32le (body.length + 1)) ++ (dt :: ft :: t1l :: t1h :: t2l :: t2h :: x1 :: x2 :: x3 :: x4 :: 0 :: fl :: info) := by
-      rw [hrec2]; simp [List.append_assoc]
-    rw [this]
-    exact List.drop_left' (by simp [saucePre82_length, hd, u32le])
-  simp only [hid, hver, hdate, hok, htail, bne_self_eq_false, Bool.false_eq_true, if_false, Bool.not_true, Nat.lt_irrefl]
-  have hb : (body ++ [0x1A] ++ rec).length - BinFmt.sauceLen = body.length + 1 := by rw [hlen, h128]; omega
-  rw [hb, hlen]
-  have : ¬ (body.length + 1 = 0) := by omega
-  simp only [this, if_false]
-  have : body.length + 129 - (body.length + 1 - 1) = 129 := by omega
-  rw [this]
-
-/-- no signature at the end: no record -/
-theorem extract_none (bytes : List Nat) (h : looksLikeSauce bytes = false) : extractSauce bytes = .none := by
-  unfold extractSauce
-  unfold looksLikeSauce at h
-  by_cases hl : bytes.length < BinFmt.sauceLen
-  · simp [hl]
-  · have hge : bytes.length ≥ BinFmt.sauceLen := by omega
-    simp only [hl, if_false]
-    simp only [hge, decide_true, Bool.true_and] at h
-    have : ((bytes.drop (bytes.length - BinFmt.sauceLen)).take 5 != BinFmt.sauceId) = true := by
-      simp only [bne, h, Bool.not_false]
-    simp [this]
+/-! ## lists -/
 
 theorem take_body (body rest : List Nat) (n : Nat) (h : rest.length = n) :
     (body ++ rest).take ((body ++ rest).length - n) = body := by
